@@ -82,6 +82,28 @@ def gen_requests(rng, quick):
             xb, xe = interval()
             l = abs(xe - xb)
             reqs.append(("wild", xb, xe, 10 ** rng.uniform(-2, 0) * l, 10 ** rng.uniform(-2, 0) * l, n))
+    # densities equal up to round-off ("ulp-close"): d and d moved by 1..4 ulps, and products such as 0.1*3 vs 0.3;
+    # xaux may then be > 0 although the computed ratio rounds to exactly 1
+    def ulps(x, k):
+        for _ in range(abs(k)):
+            x = math.nextafter(x, math.inf if k > 0 else -math.inf)
+        return x
+    ulp_pairs = [(0.3, 0.1 * 3), (0.1 * 3, 0.3), (0.7, 0.1 * 7), (0.6, 0.2 * 3), (1.1 * 1.1, 1.21)]
+    for dd in [0.1, 0.3, 1., 2.5, 17., 1e-3] + [10 ** rng.uniform(-3, 1) for _ in range(2 if quick else 12)]:
+        for k in (1, 2, 3, 4, -1, -2, -3, -4):
+            ulp_pairs.append((dd, ulps(dd, k)))
+    for (db, de) in ulp_pairs:
+        for (xb, xe) in [(0., 1.), (1., 0.), (0., 0.5), (-2., -1.), (3., 1.)] + [interval() for _ in range(1 if quick else 4)]:
+            for n in (2, 7, 1000):
+                reqs.append(("ulp-close", xb, xe, db, de, n))
+    # the edges of the near-uniform band: |r - 1| just below / above 1e-5, on both sides of 1
+    for n in (2, 7, 100, 1000):
+        for fac in (1 - 1e-6, 1 - 1e-9, 1 - 1e-12, 1 - 1e-15, 1., 1 + 1e-15, 1 + 1e-12, 1 + 1e-9, 1 + 1e-6):
+            for sgn in (1, -1):
+                for _ in range(1 if quick else 4):
+                    xb, xe = interval()
+                    db, de = with_ratio(1 + sgn * 1e-5 * fac, xb, xe, n)
+                    reqs.append(("band-edge", xb, xe, db, de, n))
     reqs.append(("upstream", 2., 17., 0.1, 5., 10))
     # the replayed instances of the near-uniform defect
     reqs.append(("band", 0., 1., 0.1, 0.100009, 1000))
@@ -110,6 +132,10 @@ def property_failures(st, n):
         bad.append("first node != xb")
     if not st["last"]:
         bad.append("last node != xe")
+    if st.get("nonfinite", 0) > 0:
+        # NaN / infinite nodes: every comparison below would be vacuous
+        bad.append("%d non-finite node(s) (NaN or infinite)" % st["nonfinite"])
+        return bad, False
     ulp = math.ulp(st["maxabs"]) if st["maxabs"] > 0 else 5e-324
     if st["back"] > 16 * ulp:
         bad.append("not monotone: step %d goes back by %.6g" % (st["at"], st["back"]))
@@ -205,14 +231,15 @@ def run(ck):
         "theorems are in exact arithmetic (ordered field, pow = r^n, sqrt abstract with the square-root law): rounding, "
         "overflow of r^n and elements below the resolution of double are not modelled; on the implementation the "
         "property is evaluated with noise bounds derived from ulp(max|node|) (monotonicity: backward step > 16 ulp, or a zero-length element while all others exceed 1e7 ulp; "
-        "constant ratio: only when every element length exceeds 1e7 ulp, relative spread > 1e-4)",
+        "constant ratio: only when every element length exceeds 1e7 ulp, relative spread > 1e-4; a NaN or infinite node is a failure)",
         "the direction of the grading for xe < xb (which end gets the small elements) is not part of the property",
     ]
     big = max(r[5] for r in reqs)
     return ck.finish({
         "evaluations": len(reqs), "distinct_nontrivial": sum(1 for r in reqs if r[0] != "invalid" and r[5] >= 2),
-        "rule": "requests = seeded (interval, densities, n) per class {graded r<1/r>1, near-uniform band, band boundary, equal "
-                "densities, wild, upstream test, rejected}; distinct = accepted requests with n >= 2 (random reals: all distinct)",
+        "rule": "requests = seeded (interval, densities, n) per class {graded r<1/r>1, near-uniform band, band boundary and band "
+                "edges (|r-1| = 1e-5 (1 +- 1e-15..1e-6)), equal densities, ulp-close densities (1..4 ulps apart, 0.1*3 vs 0.3), "
+                "wild, upstream test, rejected}; distinct = accepted requests with n >= 2 (random reals: all distinct)",
         "classes": hist, "n_max": big, "model_variant_matched": variant, "match_counts": match,
         "property_failures_on_implementation": len(failures), "unresolved_in_double": unresolved,
         "traces_validated_against_impl": len(reqs),
